@@ -721,6 +721,16 @@ func (env *SpecEnv) call(x SCall) Val {
 		}
 		dk, ds, _, _, ks, _ := a.mapHeaps(env.st, mt)
 		return Val{S: sel(env.vc.getHeap(env.st, dk, ds), m.S), Sort: "(Array " + ks + " Bool)"}
+	case "mapval":
+		// mapval(m, k): the raw stored value at key k (typed; meaningful only where k is in m)
+		m := arg(0)
+		mt, ok := m.T.Underlying().(*types.Map)
+		if !ok {
+			env.fail("mapval of non-map")
+		}
+		_, _, vk, vs, _, vsrt := a.mapHeaps(env.st, mt)
+		k := a.convKey(env.st, arg(1), mt.Key())
+		return Val{S: sel(sel(env.vc.getHeap(env.st, vk, vs), m.S), k.S), Sort: vsrt, T: mt.Elem()}
 	case "mapvals":
 		m := arg(0)
 		mt, ok := m.T.Underlying().(*types.Map)
